@@ -228,7 +228,11 @@ CbStep(m0, e) ==
             ELSE m2
       m4 == [m3 EXCEPT !.fl[j].st = IF e.ok THEN "ok" ELSE "err",
                        !.acked = IF e.ok /\ f.inst = m3.inst THEN Max2(@, f.n) ELSE @]
-  IN m4
+      \* reference states below the acknowledged prefix can never be a legal recovery result again: drop them
+      m5 == IF m4.acked > m4.vbase
+            THEN [m4 EXCEPT !.views = SubSeq(@, m4.acked - m4.vbase + 1, Len(@)), !.vbase = m4.acked]
+            ELSE m4
+  IN m5
 
 -----------------------------------------------------------------------------
 (* observation compare *)
